@@ -1,4 +1,4 @@
-(* C01 - witnesses about superseded code (repaired by C01-fix-1). *)
+(* C01 - witnesses about superseded code (repaired by C01-fix-1, C01-fix3-3). *)
 From CfdmV Require Import Common.Base C01.Model C01.Lemmas.
 Open Scope string_scope.
 Open Scope list_scope.
@@ -16,3 +16,13 @@ Theorem C01_dimension_name_kept_example :
   In "t" (map fst (d_dims (write_skel o0 f_witness))) /\ length (read_skel (write_skel o0 f_witness)) = 1%nat.
 Proof. exact dimension_name_kept_example. Qed.
 Print Assumptions C01_dimension_name_kept_example.
+
+(* bounds-dimension-name-shared-by-size: the superseded _write_bounds reused ANY bounds dimension of the same size,
+   so the netCDF dimension name "nv" set on a second 2-vertex Bounds was not a dimension of the dataset; the repaired
+   _write_bounds (C01-fix3-3) creates it.  State = the writer state after a first, unnamed 2-vertex bounds. *)
+Theorem C01_bounds_dimension_name_old_refuted :
+  exists w b cdims cvar, b_ncdim b = Some "nv" /\
+    ~ In "nv" (map fst (w_dims (snd (write_bounds_old (Some b) cdims cvar w)))) /\
+    In "nv" (map fst (w_dims (snd (write_bounds (Some b) cdims cvar w)))).
+Proof. exact bounds_dimension_name_old_refuted. Qed.
+Print Assumptions C01_bounds_dimension_name_old_refuted.
